@@ -461,6 +461,30 @@ def m_request_stale_entry(f, case, viol):
     return bool(paths) and all(p in cand and p in req for p in paths)
 
 
+def m_rerequest_masks_remote_edit(f, case, viol):
+    """mechanism (C20): a requested file P has a local edit that is still to be uploaded; the application requests P again
+    (smart_sync_* marks the REMOTE side changed, and the refresh that follows stamps both sides 'seen' with that new, later stamp);
+    the other user then edits P remotely, and before that event is taken in the pending upload runs: get_latest() skips the remote
+    side (its 'seen' stamp is not older than any change stamp), no conflict is noticed, and the local bytes overwrite the remote
+    edit.  History: U0 write P ... X sync_path|sync_oid P ... U1 write P (payload v), and the lost payload is exactly v."""
+    plan = case.get("plan", [])
+    lost = list(viol.get("lost") or [])
+    if not lost:
+        return False
+    for i, u in enumerate(plan):
+        if not (u and u[0] == "U" and u[1] == 0 and u[2] == "write"):
+            continue
+        P = u[3]
+        for j in range(i + 1, len(plan)):
+            x = plan[j]
+            if x and x[0] == "X" and x[1] in ("sync_path", "sync_oid") and x[2] == P:
+                for k in range(j + 1, len(plan)):
+                    w = plan[k]
+                    if w and w[0] == "U" and w[1] == 1 and w[2] == "write" and w[3] == P and lost == [w[4]]:
+                        return True
+    return False
+
+
 def m_smart_intake_fault(f, case, viol):
     """mechanism (C20, runs with injected temporary errors): in on-demand mode the event manager calls the provider while it applies
     an event (path lookup for the auto-sync predicate / request set); when that call fails the event has already been taken from
@@ -650,7 +674,7 @@ def m_moved_out_race(f, case, viol):
     return _paths_related_to_moves(viol, ok, case)
 
 
-MATCHERS = {"smart_intake_fault": m_smart_intake_fault, "content_revert": m_content_revert, "conflicted_blocks_rmdir": m_conflicted_blocks_rmdir, "dup_folder_discard": m_dup_folder_discard, "missing_resurrect": m_missing_resurrect, "pathless_recreate": m_pathless_recreate, "declined_conflict": m_declined_conflict, "mock_path_ci": m_mock_path_ci, "request_stale_entry": m_request_stale_entry, "late_parent_event": m_late_parent_event, "crash_dup_entry": m_crash_dup_entry, "boundary_folder_move": m_boundary_folder_move, "moved_out_race": m_moved_out_race, "crash_rename_over": m_crash_rename_over, "event_exc": m_event_exc, "half_transfer": m_half_transfer, "history": m_history, "rename_race": m_rename_race, "dirdelete_race": m_dirdelete_race}
+MATCHERS = {"rerequest_masks_remote_edit": m_rerequest_masks_remote_edit, "smart_intake_fault": m_smart_intake_fault, "content_revert": m_content_revert, "conflicted_blocks_rmdir": m_conflicted_blocks_rmdir, "dup_folder_discard": m_dup_folder_discard, "missing_resurrect": m_missing_resurrect, "pathless_recreate": m_pathless_recreate, "declined_conflict": m_declined_conflict, "mock_path_ci": m_mock_path_ci, "request_stale_entry": m_request_stale_entry, "late_parent_event": m_late_parent_event, "crash_dup_entry": m_crash_dup_entry, "boundary_folder_move": m_boundary_folder_move, "moved_out_race": m_moved_out_race, "crash_rename_over": m_crash_rename_over, "event_exc": m_event_exc, "half_transfer": m_half_transfer, "history": m_history, "rename_race": m_rename_race, "dirdelete_race": m_dirdelete_race}
 
 
 def match_one(f, case, viol):
